@@ -284,11 +284,17 @@ impl C03 {
         // every function: coefficients, no fixed id left
         let mut pairs: Vec<(String, v1::Function, v1::Function)> = vec![];
         pairs.push(("objective".into(), opt_fn(&inst.objective), opt_fn(&inst2.objective)));
-        for (a, b) in inst.constraints.iter().zip(inst2.constraints.iter()) {
-            pairs.push((format!("constraint"), opt_fn(&a.function), opt_fn(&b.function)));
-        }
-        for (a, b) in inst.removed_constraints.iter().zip(inst2.removed_constraints.iter()) {
-            pairs.push((format!("removed-constraint"), opt_fn(&a.constraint.as_ref().unwrap().function), opt_fn(&b.constraint.as_ref().unwrap().function)));
+        // constraints are paired by id (the order of the lists is not part of the property)
+        match (pair_by_id(&inst.constraints, &inst2.constraints), pair_removed_by_id(&inst.removed_constraints, &inst2.removed_constraints)) {
+            (Some(act), Some(rem)) => {
+                for (a, b) in act {
+                    pairs.push((format!("constraint"), opt_fn(&a.function), opt_fn(&b.function)));
+                }
+                for (a, b) in rem {
+                    pairs.push((format!("removed-constraint"), opt_fn(&a.constraint.as_ref().unwrap().function), opt_fn(&b.constraint.as_ref().unwrap().function)));
+                }
+            }
+            _ => mon.violation("C03.instance-constraint-set-changed", format!("partial_evaluate changed the set of (removed) constraint ids\nresult={inst2:?}\n{}", ctx())),
         }
         for (k, fa) in &inst.decision_variable_dependency {
             if let Some(fb) = inst2.decision_variable_dependency.get(k) {
@@ -402,7 +408,7 @@ impl C03 {
                     if let Some(d) = compare_partial_two_step(&opt_fn(&inst.objective), &opt_fn(&i3.objective), &s1) {
                         mon.violation("C03.two-step:instance-objective", format!("{d}\n{}", ctx()));
                     }
-                    for (ca, cb) in inst.constraints.iter().zip(i3.constraints.iter()) {
+                    for (ca, cb) in pair_by_id(&inst.constraints, &i3.constraints).unwrap_or_default() {
                         if let Some(d) = compare_partial_two_step(&opt_fn(&ca.function), &opt_fn(&cb.function), &s1) {
                             mon.violation("C03.two-step:instance-constraint", format!("constraint {}: {d}\n{}", ca.id, ctx()));
                         }
